@@ -60,6 +60,7 @@ struct Tok {
         uint16_t lit; // literal if len==0
         uint16_t len;
         uint32_t dist;
+        uint8_t alt258 = 0; // length 258 spelt as symbol 284 with all five extra bits set (227 + 31): what no encoder emits and every decoder must read
 };
 
 // kraft sum in units of 2^-maxbits
@@ -212,13 +213,13 @@ DefGenOut gen_deflate_stream(const Json &spec)
                                 int64_t src = (int64_t) plain.size() - dist;
                                 plain.push_back(src >= 0 ? plain[(size_t) src] : (uint8_t) (0x5d ^ (uint8_t) (dict + src)));
                         }
-                        toks.push_back({ 0, (uint16_t) len, dist });
+                        toks.push_back({ 0, (uint16_t) len, dist, (uint8_t) (len == 258 && rld.chance(1, 3)) });
                         if (dist > o.max_dist)
                                 o.max_dist = dist;
                 } else {
                         uint8_t b = alpha == 0 ? (uint8_t) r.u64() : alpha == 1 ? (uint8_t) ('a' + r.below(5)) : alpha == 2 ? (uint8_t) (32 + r.below(90)) : (uint8_t) r.below(2);
                         plain.push_back(b);
-                        toks.push_back({ b, 0, 0 });
+                        toks.push_back({ b, 0, 0, 0 });
                 }
         }
         // ---- blocks
@@ -312,7 +313,7 @@ DefGenOut gen_deflate_stream(const Json &spec)
                         std::vector<uint32_t> lf(286, 0), df(30, 0);
                         for (size_t k = ti; k < ti + ntok; k++) {
                                 if (toks[k].len) {
-                                        lf[257 + len_sym(toks[k].len)]++;
+                                        lf[257 + (toks[k].alt258 ? 27 : len_sym(toks[k].len))]++;
                                         df[dist_sym(toks[k].dist)]++;
                                 } else
                                         lf[toks[k].lit]++;
@@ -668,9 +669,9 @@ DefGenOut gen_deflate_stream(const Json &spec)
                                 break;
                         const Tok &t = toks[k];
                         if (t.len) {
-                                int ls = len_sym(t.len), ds = dist_sym(t.dist);
+                                int ls = t.alt258 ? 27 : len_sym(t.len), ds = dist_sym(t.dist);
                                 w.code(lc[257 + ls], ll[257 + ls]);
-                                w.put(t.len - len_base[ls], len_extra[ls]);
+                                w.put(t.len - len_base[ls], len_extra[ls]); // alt258: 258 - 227 = 31, all five extra bits
                                 w.code(dc[ds], dl[ds]);
                                 w.put(t.dist - dist_base[ds], dist_extra[ds]);
                                 ppos += t.len;
